@@ -43,6 +43,17 @@ CHECKS.update({
         note=FAM_NOTE + " Memory use on foreign byte streams is outside the specification.", technique=FAM_TECH, ref="5/C08"),
 })
 
+CHECKS.update({
+    "C04": dict(
+        text="PartitionSM.tla (replicas over a common log with snapshot / restore / restart) is checked exhaustively by TLC (SameIndexSameStore, EqualsReplay, SnapshotIsPrefix, OutcomesAgree). On the real code every log 'map state history + one more change' (all six change kinds) is applied by one real partition state machine, a snapshot is taken after every entry, and for every cut point a second real state machine is started from that snapshot (fresh, or after applying a prefix itself) and fed the same bytes; PartitionSMTrace compares outcomes and contents with the first replica and with the sequential map.",
+        note="Assumes the replicated log delivers identical bytes in identical order (C05). " + FAM_NOTE,
+        technique="TLA+ model checking (TLC) + multi-replica replay of TLC-generated logs on real partition state machines + TLC trace validation", ref="5/C04"),
+    "C06": dict(
+        text="WalStore.tla is a transcription of raft.MemoryStorage plus the wal calls for two groups in one key space; TLC checks its invariants and the isolation / delete-is-fresh action properties exhaustively and emits every bounded legal call history. Each is executed against the Badger store and MemoryStorage side by side in one database, all queries after every call; WalStoreTrace must accept the MemoryStorage answers (else the transcription is wrong: no verdict) and decides the property on the Badger answers. Seeded random legal call sequences extend the index/term range.",
+        note="Trusts Badger itself and etcd's MemoryStorage as the reference; entry sizes are uniform so size limits are exercised in whole entries.",
+        technique="TLA+ model checking (TLC) + three-way conformance (spec / reference storage / Badger store) by replay of TLC-generated call histories + TLC trace validation", ref="5/C06"),
+})
+
 NOT_APPLICABLE = {
     "C15": "Numeric agreement and memory safety of hand-written AVX/SSE kernels: no state machine to specify, TLC has neither IEEE-754 floats nor a memory model; a differential/sanitizer technique would be needed (DESIGN.md section 6).",
 }
